@@ -76,8 +76,10 @@ TLC_STATS = re.compile(r"(\d+) states generated, (\d+) distinct states found")
 
 def tlc(module, cfg, env, wd, workers=8, timeout=1800, simulate=None, extra=None, deque=False, heap="8g"):
     """Runs TLC on spec/<module>.tla with spec/<cfg>; returns dict(out, states, distinct, ok, verdicts)."""
-    meta = os.path.join(wd, "tlcmeta." + module + "." + str(abs(hash(json.dumps(env, sort_keys=True))) % 100000))
-    tmp = os.path.join(wd, "jtmp"); os.makedirs(tmp, exist_ok=True)
+    import uuid
+    uid = uuid.uuid4().hex[:10]         # TLC unpacks its library modules into java.io.tmpdir: every run gets its own, concurrent runs must not share one
+    meta = os.path.join(wd, "tlcmeta." + module + "." + uid)
+    tmp = os.path.join(wd, "jtmp." + uid); os.makedirs(tmp, exist_ok=True)
     # java is invoked directly (same jars as the `tlc` wrapper) so that -Xss also sizes the main thread,
     # which evaluates invariants on initial states (JAVA_TOOL_OPTIONS only reaches threads created later)
     jopts = ["-Xss1g", f"-Xmx{heap}", f"-Djava.io.tmpdir={tmp}", "-XX:+UseParallelGC"]
